@@ -1028,6 +1028,9 @@ func escapesOf(p *Program, fn *ssa.Function, obj ssa.Value, der map[ssa.Value]bo
 					if _, ok := x.Addr.(*ssa.Alloc); ok {
 						continue // local cell; its loads are derived
 					}
+					if deferred && overwrittenWithNilBeforeExit(fn, x) {
+						continue // parked in a field for the duration of the call and cleared before the deferred release runs
+					}
 					return fmt.Sprintf("%s stores %s (aliases the released object) into memory that outlives the release", p.Pos(x.Pos()), x.Val.Name())
 				}
 			}
@@ -1160,4 +1163,45 @@ func resliceOrMake(fn *ssa.Function) (param int, ok bool) {
 		}
 	}
 	return 0, false
+}
+
+
+// overwrittenWithNilBeforeExit: st stores into a field x.f; on every path from st to the function's
+// exit a later store writes nil into the same field of the same base value.
+func overwrittenWithNilBeforeExit(fn *ssa.Function, st *ssa.Store) bool {
+	fa, ok := st.Addr.(*ssa.FieldAddr)
+	if !ok {
+		return false
+	}
+	ipd := computeIPdom(fn)
+	for _, b := range fn.Blocks {
+		for i, in := range b.Instrs {
+			s2, ok := in.(*ssa.Store)
+			if !ok || s2 == st {
+				continue
+			}
+			fa2, ok := s2.Addr.(*ssa.FieldAddr)
+			if !ok || fa2.Field != fa.Field || fa2.X != fa.X {
+				continue
+			}
+			k, isC := s2.Val.(*ssa.Const)
+			if !isC || !k.IsNil() {
+				continue
+			}
+			if b == st.Block() {
+				for j, in2 := range b.Instrs {
+					if in2 == ssa.Instruction(st) && j < i {
+						return true
+					}
+				}
+				continue
+			}
+			for d := ipd[st.Block()]; d != nil; d = ipd[d] {
+				if d == b {
+					return true
+				}
+			}
+		}
+	}
+	return false
 }
